@@ -199,6 +199,9 @@ func (u *Unmarshaler) Unmarshal(serialized []byte) (*Biscuit, error) {
 	if symbols.Len() != known+authority.symbols.Len() {
 		return nil, ErrSymbolTableOverlap
 	}
+	if err := authority.checkSymbols(symbols); err != nil {
+		return nil, err
+	}
 
 	blocks := make([]*Block, len(container.Blocks))
 	for i, sb := range container.Blocks {
@@ -223,6 +226,9 @@ func (u *Unmarshaler) Unmarshal(serialized []byte) (*Biscuit, error) {
 		symbols.Extend(blocks[i].symbols)
 		if symbols.Len() != known+blocks[i].symbols.Len() {
 			return nil, ErrSymbolTableOverlap
+		}
+		if err := block.checkSymbols(symbols); err != nil {
+			return nil, err
 		}
 	}
 
